@@ -27,6 +27,29 @@ func evalConst(info *types.Info, e ast.Expr, env Env) (constant.Value, bool) {
 		return tv.Value, true
 	}
 	switch x := e.(type) {
+	case *ast.CallExpr:
+		// slices.Contains([]T{c1, c2, …}, X) with constant elements: membership of X's value (exact)
+		if isCallTo(info, x, "slices.Contains") && len(x.Args) == 2 {
+			if cl, isLit := unparen(x.Args[0]).(*ast.CompositeLit); isLit {
+				v, known := evalConst(info, x.Args[1], env)
+				if known {
+					allConst, hit := true, false
+					for _, el := range cl.Elts {
+						ev, ok := evalConst(info, el, env)
+						if !ok {
+							allConst = false
+							break
+						}
+						if ev.Kind() == v.Kind() && constant.Compare(ev, token.EQL, v) {
+							hit = true
+						}
+					}
+					if allConst {
+						return constant.MakeBool(hit), true
+					}
+				}
+			}
+		}
 	case *ast.UnaryExpr:
 		v, ok := evalConst(info, x.X, env)
 		if !ok {
